@@ -185,7 +185,8 @@ def _vec_stub(data_of):
         n = st.objsize(obj) // 8
         if not (0 <= i < n):
             M.oob.append((st.pathcond(), f"vector index {i} outside [0,{n}) of {obj}"))
-            return st, Ptr(obj + "!oob", 0)
+            st.size["$oob"] = 1 << 20
+            return st, Ptr("$oob", 0)
         return st, Ptr(obj, 8 * i)
 
     return f
@@ -204,7 +205,8 @@ def _mat_stub(dims):
         obj, nr, nc = d
         if not (0 <= i < nr and 0 <= j < nc):
             M.oob.append((st.pathcond(), f"matrix element ({i},{j}) outside {nr}x{nc}"))
-            return st, Ptr(obj + "!oob", 0)
+            st.size["$oob"] = 1 << 20
+            return st, Ptr("$oob", 0)
         return st, Ptr(obj, 8 * (i * nc + j))
 
     return f
